@@ -1,10 +1,10 @@
 #!/bin/bash
-# run_all.sh <tier> <seed...> : runs every check, prints one line per check (+ any VIOLATION / INCONCLUSIVE lines)
+# run_all.sh <tier> <seed...> : runs every check (or those named in CHECKS="C03 C09"), prints one line per check (+ any
+# VIOLATION / INCONCLUSIVE lines)
 tier=$1; shift
 cd "$(dirname "$0")/.."
 for seed in "$@"; do
-  for i in $(seq -w 1 20); do
-    p=C$i
+  for p in ${CHECKS:-C01 C02 C03 C04 C05 C06 C07 C08 C09 C10 C11 C12 C13 C14 C15 C16 C17 C18 C19 C20}; do
     out=$(VERIF_SEED=$seed /venv/bin/python -W ignore harness/check.py $p --tier $tier 2>&1); rc=$?
     echo "$out" | grep -E "^(VIOLATION|INCONCLUSIVE|violation keys)" | cut -c1-400
     echo "rc=$rc $(echo "$out" | grep -E "^$p tier" | cut -c1-200)"
